@@ -22,7 +22,7 @@ def fmt_dt(d):
 
 class ProcResult(object):
     __slots__ = ('pid', 'argv', 'exit', 'out', 'err', 'exc', 'exc_frame', 'trace', 'nops',
-                 'nmut', 'killed', 'clock')
+                 'nmut', 'killed', 'clock', 'replies')
 
     def as_log(self):
         return [self.pid, self.argv, self.exit, self.out.decode('utf-8', 'backslashreplace'),
@@ -82,7 +82,7 @@ class Sim(object):
             pass
 
     # ---- processes ---------------------------------------------------------
-    def run(self, spec):
+    def run(self, spec, stdin_fn=None):
         self.npid += 1
         pid = self.npid
         if 'rand' in spec:
@@ -91,7 +91,7 @@ class Sim(object):
             self.advance(spec['advance'])
         t0 = len(K.trace)
         c0 = len(P.CLOCK.readings)
-        p = P.make_proc(pid, spec)
+        p = P.make_proc(pid, spec, stdin_fn)
         P.run_sequential(p)
         r = ProcResult()
         r.pid = pid
@@ -106,6 +106,7 @@ class Sim(object):
         r.nmut = p.nmut
         r.killed = p.killed
         r.clock = [v for (_pid, v) in P.CLOCK.readings[c0:]]
+        r.replies = list(getattr(p.stdio.stdin, 'replies', []))
         self.log.append(r.as_log())
         return r
 
